@@ -82,6 +82,8 @@ def run_scenario(name):
         "reset_all": ["reset", "-y"],
         "reset_subset": ["reset", "plot_split", "plot_usetex", "plot_linewidth"],
         "set": ["set", "plot_split", "true", "plot_linewidth", "3", "plot_statistics", "rmse", "max"],
+        # an interactive plotting backend chosen on a machine / in a session without display
+        "set_backend": ["set", "plot_backend", "TkAgg", "plot_linewidth", "2.5"],
         "merge_hard": ["set", "-m", other],
         "merge_soft": ["set", "-m", other, "--soft"],
         # the settings file named explicitly, by a relative spelling, from another directory
